@@ -290,6 +290,7 @@ package grpcgcp
 //@
 //@ func context.Context.Value(key) (v)
 //@   ensures v is *gcpContext ==> v.(*gcpContext) != nil
+//@   ensures v == ctx_value(this, key)
 //@
 //@ func (p *errPicker) Pick
 //@   ensures [C04.errpicker-fails] $ret1 == p.err
@@ -425,3 +426,113 @@ package grpcgcp
 //@ typeinv GCPMultiEndpoint := this.log != nil && this.dialFunc != nil
 //@ typeinv monitoredConn := this.gme != nil && this.conn != nil && this.cancel != nil
 //@ autotag race gcp_multiendpoint.go C10
+
+//@ tracked monitoredConn
+//@ guards GCPMultiEndpoint.mu: $meHas
+//@ dyn field:monitoredConn.cancel ()
+//@   modifies $cancelCalls
+//@   ensures $cancelCalls == upd(old($cancelCalls), $fn, old($cancelCalls)[$fn] + 1)
+//@ dyn field:GCPMultiEndpoint.dialFunc (ctx, target, dopts) (conn, err)
+//@   modifies nothing
+//@   ensures err == nil ==> conn != nil
+
+// GMEInv: lock invariant of GCPMultiEndpoint.mu
+//@ inv GCPMultiEndpoint.mu G0 [C16] := this.mes != nil && this.pools != nil
+//@ inv GCPMultiEndpoint.mu G1 [C15 C16] := forall name, me in this.mes :: me != nil && (forall e string :: {mekey(me, e)} $meHas[mekey(me, e)] ==> e in this.pools)
+//@ inv GCPMultiEndpoint.mu G2 [C15 C16] := len(this.mes) > 0 ==> this.defaultName in this.mes
+//@ inv GCPMultiEndpoint.mu G3 [C15 C16] := forall e, mc in this.pools :: mc != nil && isa(mc) && mc.endpoint == e && mc.gme == this && mc.conn != nil && mc.cancel != nil
+//@ mono GCPMultiEndpoint.mu [C16] := old(len(this.mes) > 0) ==> len(this.mes) > 0
+
+// the MultiEndpoint a call is routed by: the one named in the context if it exists, else the default one
+//@ spec meSel(gme *GCPMultiEndpoint, ctx context.Context) := ite(typeis(ctx_value(ctx, iface(meKey)), string) && ctx_value(ctx, iface(meKey)).(string) in gme.mes, gme.mes[ctx_value(ctx, iface(meKey)).(string)], gme.mes[gme.defaultName])
+//@ func (gme *GCPMultiEndpoint) pickConn
+//@   requires ctx != nil
+// the object was obtained from a successful NewGCPMultiEndpoint (the only way to get one); it stays configured (mono)
+//@   requires [C15.assume-constructed] len(gme.mes) > 0
+//@   callsite Current#1 asserts [C15.route-me] $arg0 == meSel(gme, ctx)
+//@   ensures [C15.route-pool] result != nil
+//@   ensures [C15.route-pool] $call("Current#1") in gme.pools && result == gme.pools[$call("Current#1")].conn
+//@ func (gme *GCPMultiEndpoint) Invoke
+//@   requires ctx != nil
+//@   requires [C15.assume-constructed] len(gme.mes) > 0
+//@   ensures [C15.invoke-routed] $ccInvokes == upd(old($ccInvokes), $call("pickConn#1"), old($ccInvokes)[$call("pickConn#1")] + 1) && $ccStreams == old($ccStreams)
+//@ func (gme *GCPMultiEndpoint) NewStream
+//@   requires ctx != nil
+//@   requires [C15.assume-constructed] len(gme.mes) > 0
+//@   ensures [C15.stream-routed] $ccStreams == upd(old($ccStreams), $call("pickConn#1"), old($ccStreams)[$call("pickConn#1")] + 1) && $ccInvokes == old($ccInvokes)
+// Close closes every pool and cancels every monitor's context (each at least once more than before the call)
+//@ func (gme *GCPMultiEndpoint) Close
+//@   ensures [C16.close-all] forall e, mc in gme.pools :: $connCloses[mc.conn] >= old($connCloses)[mc.conn] + 1 && $cancelCalls[mc.cancel] >= old($cancelCalls)[mc.cancel] + 1
+//@   loop 1 invariant forall e, mc in gme.pools :: $visited(e) ==> $connCloses[mc.conn] >= old($connCloses)[mc.conn] + 1 && $cancelCalls[mc.cancel] >= old($cancelCalls)[mc.cancel] + 1
+//@   loop 1 invariant forall c *grpc.ClientConn :: {$connCloses[c]} $connCloses[c] >= old($connCloses)[c]
+//@   loop 1 invariant forall f context.CancelFunc :: {$cancelCalls[f]} $cancelCalls[f] >= old($cancelCalls)[f]
+// the monitor loop runs until its context is cancelled: WaitForStateChange returns false once ctx is done (gRPC contract)
+//@ func (mc *monitoredConn) monitor
+//@   requires ctx != nil
+//@   loop 1 blocking
+//@ func (mc *monitoredConn) notify
+//@ pred gmeSame(gme *GCPMultiEndpoint) := gme.defaultName == old(gme.defaultName) && (forall n string :: {n in gme.mes} (n in gme.mes) == old(n in gme.mes) && gme.mes[n] == old(gme.mes[n])) && (forall k int :: {$meHas[k]} $meHas[k] == old($meHas)[k])
+//@ pred poolsSame(gme *GCPMultiEndpoint) := forall e string :: {e in gme.pools} (e in gme.pools) == old(e in gme.pools) && gme.pools[e] == old(gme.pools[e])
+//@ pred poolsGrown(gme *GCPMultiEndpoint) := forall e string :: {e in gme.pools} old(e in gme.pools) ==> e in gme.pools && gme.pools[e] == old(gme.pools[e])
+//@ pred mesGrown(gme *GCPMultiEndpoint) := forall n string :: {n in gme.mes} old(n in gme.mes) ==> n in gme.mes && gme.mes[n] == old(gme.mes[n])
+//@ pred membersValid(gme *GCPMultiEndpoint, me multiendpoint.MultiEndpoint, vp map[string]bool) := forall e string :: {mekey(me, e)} $meHas[mekey(me, e)] ==> e in vp
+//@ func (gme *GCPMultiEndpoint) UpdateMultiEndpoints
+//@   requires meOpts != nil
+//@   ensures [C16.reject-no-default] !(meOpts.Default in meOpts.MultiEndpoints) ==> result != nil
+//@   ensures [C16.reject-empty] (exists name, meo in meOpts.MultiEndpoints :: meo == nil || len(meo.Endpoints) == 0) ==> result != nil
+//@   ensures [C16.atomic] result != nil ==> gmeSame(gme) && poolsSame(gme)
+//@   ensures [C15.applied] result == nil ==> gme.defaultName == meOpts.Default && (forall n string :: {n in gme.mes} (n in gme.mes) == (n in meOpts.MultiEndpoints))
+//@   ensures [C16.configured] result == nil ==> len(gme.mes) > 0 && gme.defaultName in gme.mes
+//@   ensures [C15.pools-exact] result == nil ==> forall e string :: {e in gme.pools} (e in gme.pools) == (e in validPools)
+//@   ensures [C15.pools-kept] result == nil ==> forall e string :: {e in gme.pools} old(e in gme.pools) && e in validPools ==> gme.pools[e] == old(gme.pools[e])
+// 1: validation
+//@   loop 1 invariant forall name, meo in meOpts.MultiEndpoints :: $visited(name) ==> meo != nil && len(meo.Endpoints) > 0
+// 2, 3: the set of configured endpoints
+//@   loop 2 invariant forall name, meo in meOpts.MultiEndpoints :: $visited(name) ==> (forall j, x in meo.Endpoints :: x in validPools)
+//@   loop 3 invariant forall name, m2 in meOpts.MultiEndpoints :: $visited(name, 2) && m2 != meo ==> (forall j, x in m2.Endpoints :: x in validPools)
+//@   loop 3 invariant forall j, x in meo.Endpoints :: j <= $i ==> x in validPools
+// 4: dial the missing pools; 5: undo them when a dial fails
+//@   loop 4 invariant lockinv(gme.mu, "G0", "G1", "G2", "G3") && gmeSame(gme) && poolsGrown(gme)
+//@   loop 4 invariant forall e in validPools :: $visited(e) ==> e in gme.pools
+//@   loop 4 invariant forall e string :: {e in gme.pools} e in gme.pools && !old(e in gme.pools) ==> e in validPools && (exists j, x in created :: x == e)
+//@   loop 4 invariant forall j, x in created :: x in gme.pools && !old(x in gme.pools)
+//@   loop 4 invariant forall j1, x1 in created :: forall j2, x2 in created :: j1 != j2 ==> x1 != x2
+//@   loop 5 invariant lockinv(gme.mu, "G0", "G2", "G3") && gmeSame(gme) && poolsGrown(gme)
+//@   loop 5 invariant forall e string :: {e in gme.pools} e in gme.pools && !old(e in gme.pools) ==> (exists j, x in created :: j > $i && x == e)
+//@   loop 5 invariant forall j, x in created :: j > $i ==> x in gme.pools && !old(x in gme.pools)
+//@   loop 5 invariant forall j1, x1 in created :: forall j2, x2 in created :: j1 != j2 ==> x1 != x2
+// 6: update / create the MultiEndpoints
+//@   loop 6 invariant lockinv(gme.mu, "G0", "G1", "G3") && mesGrown(gme) && gme.defaultName == old(gme.defaultName)
+//@   loop 6 invariant forall n string :: {n in gme.mes} n in gme.mes && !old(n in gme.mes) ==> n in meOpts.MultiEndpoints
+//@   loop 6 invariant forall e in validPools :: e in gme.pools
+//@   loop 6 invariant forall name in meOpts.MultiEndpoints :: $visited(name) ==> name in gme.mes
+//@   loop 6 invariant forall n, me in gme.mes :: n in meOpts.MultiEndpoints && $visited(n) ==> membersValid(gme, me, validPools)
+//@   deadreturn 4
+// 7: drop the MultiEndpoints that are no longer configured
+//@   loop 7 invariant lockinv(gme.mu, "G0", "G1", "G3") && gme.defaultName == meOpts.Default
+//@   loop 7 invariant forall n in meOpts.MultiEndpoints :: n in gme.mes
+//@   loop 7 invariant forall n, me in gme.mes :: n in meOpts.MultiEndpoints ==> membersValid(gme, me, validPools)
+//@   loop 7 invariant forall n in gme.mes :: $visited(n) ==> n in meOpts.MultiEndpoints
+// 8: close the pools that are no longer configured
+//@   loop 8 invariant lockinv(gme.mu, "G0", "G1", "G2", "G3")
+//@   loop 8 invariant forall e in gme.pools :: $visited(e) ==> e in validPools
+//@   loop 8 invariant forall e in validPools :: e in gme.pools
+//@   loop 8 invariant forall e string :: {e in gme.pools} e in gme.pools && old(e in gme.pools) ==> gme.pools[e] == old(gme.pools[e])
+// 9, 10: push the current connectivity of every pool to every MultiEndpoint
+//@   loop 9 invariant lockinv(gme.mu, "G0", "G1", "G2", "G3")
+//@   loop 10 invariant lockinv(gme.mu, "G0", "G1", "G2", "G3")
+//@ func NewGCPMultiEndpoint
+//@   requires meOpts != nil
+//@   ensures [C16.ctor-fail] $ret1 != nil ==> $ret0 == nil
+//@   ensures [C16.ctor-ok] $ret1 == nil ==> $ret0 != nil && len($ret0.mes) > 0
+// a failed construction leaves no pool (hence no connection and no monitor) behind
+//@   ensures [C16.ctor-no-leak] $ret1 != nil && gme != nil ==> forall e string :: {e in gme.pools} !(e in gme.pools)
+//@ func NewGcpMultiEndpoint
+//@   requires meOpts != nil
+//@ func makeOpts
+//@   requires meOpts != nil
+// a nil context is outside the contract of the context package itself (context.WithValue panics on a nil parent)
+//@ func FromMEContext
+//@   requires ctx != nil
+//@ func NewMEContext
+//@   requires ctx != nil
